@@ -247,3 +247,75 @@ func (a State) LogicalHash() string {
 	hh.Write([]byte(a.MetaDump))
 	return hex.EncodeToString(hh.Sum(nil))
 }
+
+// Persisted is the persisted state of a shard directory in the form the "nothing may change"
+// oracles need: byte-level pictures of the blobstor and write-cache trees plus the raw metabase
+// bytes (kept in memory so that the logical content can be dumped later, and only if needed).
+type Persisted struct {
+	Blob, WC Snapshot
+	Meta     []byte // nil: no metabase file
+}
+
+// SnapPersisted captures dir (the shard may be open if it is quiescent).
+func SnapPersisted(dir string) (Persisted, error) {
+	var p Persisted
+	var err error
+	if p.Blob, err = SnapTree(BlobDir(dir)); err != nil {
+		return p, err
+	}
+	if p.WC, err = SnapTree(WCDir(dir)); err != nil {
+		return p, err
+	}
+	p.Meta, err = os.ReadFile(MetaPath(dir))
+	if os.IsNotExist(err) {
+		p.Meta, err = nil, nil
+	}
+	return p, err
+}
+
+// Diff lists what differs between two captures: object trees byte for byte, the metabase by its
+// LOGICAL content (bucket/key/value dump) - identical raw bytes are the shortcut, otherwise both
+// files are dumped through temporary copies under tmpDir. Empty = nothing changed.
+func (a Persisted) Diff(b Persisted, tmpDir string) ([]string, error) {
+	var out []string
+	for _, d := range a.Blob.Diff(b.Blob) {
+		out = append(out, "blob:"+d)
+	}
+	for _, d := range a.WC.Diff(b.WC) {
+		out = append(out, "wc:"+d)
+	}
+	if string(a.Meta) != string(b.Meta) {
+		da, err := boltDumpBytes(a.Meta, tmpDir)
+		if err != nil {
+			return nil, err
+		}
+		db, err := boltDumpBytes(b.Meta, tmpDir)
+		if err != nil {
+			return nil, err
+		}
+		if da != db {
+			out = append(out, "meta.db:logical-content-differs")
+		}
+	}
+	return out, nil
+}
+
+func boltDumpBytes(b []byte, tmpDir string) (string, error) {
+	if b == nil {
+		return "<missing>", nil
+	}
+	d, err := os.MkdirTemp(tmpDir, ".boltbytes-*")
+	if err != nil {
+		return "", err
+	}
+	defer os.RemoveAll(d)
+	// BoltDump puts its scratch copy two levels above the file: keep everything inside d
+	if err := os.MkdirAll(filepath.Join(d, "x"), 0o700); err != nil {
+		return "", err
+	}
+	p := filepath.Join(d, "x", "meta.db")
+	if err := os.WriteFile(p, b, 0o600); err != nil {
+		return "", err
+	}
+	return BoltDump(p)
+}
